@@ -45,8 +45,10 @@ def _pure_log(tr, attr):
     """Is self.<attr> write-only for update(): no guard, no value stored into another attribute and no returned value
     mentions it?  (A history list whichever way it is organised - eight parallel lists, one list of rows, a dict of lists.)"""
     k = (id(tr), attr)
-    if k in _LOGCACHE:
-        return _LOGCACHE[k]
+    if len(_LOGCACHE) > 512:
+        _LOGCACHE.clear()
+    if k in _LOGCACHE and _LOGCACHE[k][0] is tr:
+        return _LOGCACHE[k][1]
     m = lambda a: a == ("attr", attr) or (a[0] == "loopvar" and a[2] == attr)
     ok = True
     for e in tr.events:
@@ -58,7 +60,7 @@ def _pure_log(tr, attr):
             ok = False
         if not ok:
             break
-    _LOGCACHE[k] = ok
+    _LOGCACHE[k] = (tr, ok)
     return ok
 
 
